@@ -30,7 +30,7 @@ def items():
     for pair in fixtures.evolution_pairs():
         ns_a = SIDES[(pair, 'a')][0]
         for dt in ns_a.data_types:
-            if dt.name in FOCUS and hx.TIER == 'quick':
+            if dt.name in FOCUS:            # both tiers: the product of the holder's independent fields did not finish in 900 s
                 out.extend('%s/%s#%d' % (pair, dt.name, k) for k in range(len(dt.all_fields)))
             else:
                 out.append('%s/%s' % (pair, dt.name))
@@ -108,7 +108,7 @@ _T = ['stone.backends.python_rsrc.stone_serializers:json_compat_obj_encode',
       'stone.backends.python_rsrc.stone_serializers:json_compat_obj_decode']
 _OUT = ['edits outside the four catalogue pairs (fields, unions, subtypes, rename/alias)', 'Bytes/Timestamp payloads',
         'Void -> non-nullable tag read by the newer side (not promised by the guide)', 'json string entry points']
-_BOUND = ('per type of each pair (holder structs: one field at a time in the quick tier): all ints, strings <= %d, lists <= %d, maps over {k,kk}, every tag/subtype incl. the new '
+_BOUND = ('per type of each pair (holder structs: one field at a time): all ints, strings <= %d, lists <= %d, maps over {k,kk}, every tag/subtype incl. the new '
           'ones, every subset of optional fields incl. the new ones; strict and lenient' % (NS, NL))
 
 
